@@ -1,13 +1,242 @@
-"""CPMC propagators in the F domain (filled in later)."""
+"""CPMC propagators in the F domain (C09): one inductive step of the weight invariant in IEEE-754.
+
+The real jitted propagate() of propagator_cpmc / _slow / _nn / _nn_slow / _continuous is traced at a tiny shape; the float64 data path
+of the weights (products with overlap ratios, the `< 1e-8` / `> 100` guards, the normalisation of the two field probabilities, the
+population-control factor exp(dt * shift), the shift update) is executed in z3 floating point; everything upstream (one-body
+propagation, determinants, Green's functions, incremental updates, erf, PRNG numbers, exp) is havocked under its IEEE contract.
+
+Pre-state = the invariant itself: every weight is 0 or a finite double in [1e-300, 100]; the shift is finite with |dt * shift| <= 590,
+or +inf while every weight is 0 (that is what the code's own shift update produces when the whole population died); |dt * e_estimate|
+<= 500.  Obligations: every new weight is a finite double >= 0, a dead walker stays dead, the new shift is finite (and inside the
+pre-state bound) while a walker is alive, and +inf - never NaN - when none is.
+
+Hostile concrete states (each one is a state a real history reaches; `concrete` runs the REAL propagate() on it):
+  normal            init_prop_data of a legitimate population
+  sign-flip         a walker whose overlap changes sign in the first one-body half step (killed by the constraint)
+  extinct           the state the REAL code leaves after a step in which every walker was killed (shift = +inf)
+  double-constraint a walker with positive overlap for which BOTH auxiliary-field values of site 0 give a non-positive overlap
+  heavy             weight 99 with a growth factor > 1
+"""
+import math
+
+import numpy as np
+import z3
+
+from vf import engine_f, fdom
+from vf.fdom import fv, F64, RM
+
+PROPS = {"cpmc": "propagator_cpmc", "cpmc_slow": "propagator_cpmc_slow", "cpmc_nn": "propagator_cpmc_nn", "cpmc_nn_slow": "propagator_cpmc_nn_slow",
+         "cpmc_continuous": "propagator_cpmc_continuous"}
+
+
+class CpmcF(engine_f.FCase):
+    check_id = "C09"
+    timeout_s = 300
+    z3_first_ms = 0  # z3 gives up on these mixed UF + FP queries (measured: > 120 s); cvc5 decides them in seconds, concurrently
+    # linear algebra and the incremental Green's function machinery are havocked as whole calls (their results are arbitrary doubles)
+    havoc_calls = ("calc_full_green_vmap", "calc_full_green", "calc_overlap_ratio_vmap", "update_greens_function_vmap", "_calc_overlap",
+                   "calc_green_diagonal_vmap", "det", "inv", "solve", "slogdet", "_uniform")
+
+    def __init__(self, args):
+        self.args = args
+        self.which = args["prop"]
+        self.nw = args.get("n_walkers", 2)
+        self.dt = args.get("dt", 0.05)
+        self.U = args.get("u", 4.0)
+        self.name = f"cpmc-weights:{PROPS[self.which]}:nw={self.nw}:dt={self.dt}"
+        self.norb, self.nelec = 2, (1, 1)
+        self._setup()
+
+    def functions(self):
+        return [f"ad_afqmc.propagation.{PROPS[self.which]}.propagate"] + (["ad_afqmc.propagation.propagator_cpmc.propagate_one_body"] if self.which in ("cpmc", "cpmc_nn") else [])
+
+    def _setup(self):
+        import jax.numpy as jnp
+        import scipy.linalg
+        from ad_afqmc import wavefunctions, propagation
+        n = self.norb
+        self.trial = wavefunctions.uhf_cpmc(n, self.nelec)
+        C = np.array([[1.0], [0.2]]) / math.sqrt(1.04)  # non-uniform trial density: the one-body half step can change the sign of an overlap
+        self.C = C[:, 0]
+        self.wd = {"mo_coeff": [jnp.array(C), jnp.array(C)]}
+        kw = {"neighbors": ((0, 1),)} if "nn" in self.which else {}
+        self.prop = getattr(propagation, PROPS[self.which])(dt=self.dt, n_walkers=self.nw, **kw)
+        K = np.array([[0.0, -1.0], [-1.0, 0.0]])
+        A = scipy.linalg.expm(-self.dt * K / 2.0)
+        self.A = A
+        g = math.acosh(math.exp(self.dt * self.U / 2.0))
+        c = math.exp(-self.dt * self.U / 2.0)
+        self.hs = c * np.array([[math.exp(g), math.exp(-g)], [math.exp(-g), math.exp(g)]])
+        self.hd = {"exp_h1": jnp.array([A, A]), "hs_constant": jnp.array(math.sqrt(self.dt * self.U))}
+
+    def fn(self, weights, wu, wd_, overlaps, rns, shift, eest):
+        import jax
+        import jax.numpy as jnp
+        W = [wu, wd_]
+        pd = {"weights": weights, "walkers": W, "overlaps": overlaps, "pop_control_ene_shift": shift, "e_estimate": eest,
+              "key": jax.random.PRNGKey(11)}
+        if self.which != "cpmc_continuous":
+            pd["greens"] = self.trial.calc_full_green_vmap(W, self.wd)
+        if "nn" in self.which:
+            pd["hs_constant_onsite"], pd["hs_constant_nn"] = jnp.array(self.hs), jnp.array(self.hs)
+        else:
+            pd["hs_constant"] = jnp.array(self.hs)
+        pd = self.prop.propagate(self.trial, self.hd, pd, rns, self.wd)
+        if getattr(self, "_full", False):
+            return pd["weights"], pd["pop_control_ene_shift"], pd["overlaps"], pd["walkers"][0], pd["walkers"][1]
+        return pd["weights"], pd["pop_control_ene_shift"], pd["overlaps"]
+
+    # ---- hostile states ----------------------------------------------------------------------------------------------------
+    def _legit(self):
+        rng = np.random.default_rng(5)
+        nw, n = self.nw, self.norb
+        wu = 1.0 + 0.3 * rng.normal(size=(nw, n, 1))
+        wd_ = 1.0 + 0.3 * rng.normal(size=(nw, n, 1))
+        return wu, wd_
+
+    def _ov(self, wu, wd_):
+        import jax.numpy as jnp
+        return np.asarray(self.trial.calc_overlap([jnp.array(wu), jnp.array(wd_)], self.wd)).real.astype(float)
+
+    def example(self, kind="normal"):
+        nw, n = self.nw, self.norb
+        wu, wd_ = self._legit()
+        weights = np.ones(nw)
+        rns = np.random.default_rng(9).normal(size=(nw, n))
+        shift, eest = 0.1, 0.1
+        Ainv = np.linalg.inv(self.A)
+        if kind == "sign-flip":
+            # overlap 0.01 > 0 now, < 0 after exp(-dt K/2) is applied (killed by the constraint in the first half step)
+            wu[0, :, 0] = [0.1, -0.45]
+        elif kind == "extinct":
+            # every walker changes the sign of its overlap in the first half step; the REAL step is run once and the state it leaves
+            # (all weights 0, shift +inf) is the hostile pre-state
+            for k in range(nw):
+                wu[k, :, 0] = [0.1 + 0.01 * k, -0.45 - 0.045 * k]
+            ov = self._ov(wu, wd_)
+            self._full = True
+            try:
+                w1, s1, o1, wu1, wd1 = self._run_real((weights, wu, wd_, ov, rns, shift, eest))
+            finally:
+                self._full = False
+            return (np.asarray(w1, dtype=float), np.asarray(wu1, dtype=float), np.asarray(wd1, dtype=float), np.asarray(o1, dtype=float), rns, float(s1), eest)
+        elif kind == "double-constraint":
+            # after the half step: psi = (5, -20) for both spins; trial (1, 0.2): overlap > 0, G_00 = 5: both field values of site 0
+            # make one spin factor of the overlap ratio negative
+            for arr in (wu, wd_):
+                arr[0, :, 0] = Ainv @ np.array([5.0, -20.0])
+        elif kind == "heavy":
+            weights = weights.copy()
+            weights[0] = 99.0
+            shift = 2.0
+        ov = self._ov(wu, wd_)
+        return (weights, wu, wd_, ov, rns, shift, eest)
+
+    KINDS = ("normal", "sign-flip", "extinct", "double-constraint", "heavy")
+
+    def hostile(self):
+        for k in self.KINDS:
+            yield k, self.example(k)
+
+    def trace(self):
+        import jax
+        import jax.numpy as jnp
+        ex = self.example()
+        closed = jax.make_jaxpr(self.fn)(*[jnp.asarray(a) for a in ex])
+        return closed, ex
+
+    # ---- symbolic pre-state ---------------------------------------------------------------------------------------------------
+    def sym_inputs(self, fi):
+        nw, n = self.nw, self.norb
+        fi.uf_add = True
+        self.w = [z3.FP(f"w{k}", F64) for k in range(nw)]
+        self.shift = z3.FP("shift", F64)
+        self.eest = z3.FP("eest", F64)
+        lim_s, lim_e = 590.0 / self.dt, 500.0 / self.dt
+        pre = [z3.Or(z3.fpIsZero(w), z3.And(fdom.nonneg_finite(w), z3.fpGEQ(w, fv(1e-300)), z3.fpLEQ(w, fv(100.0)))) for w in self.w]
+        all_dead = z3.And(*[z3.fpIsZero(w) for w in self.w])
+        pre.append(z3.Or(z3.And(fdom.finite(self.shift), z3.fpLEQ(z3.fpAbs(self.shift), fv(lim_s))),
+                         z3.And(z3.fpIsInf(self.shift), z3.fpIsPositive(self.shift), all_dead)))
+        pre += [fdom.finite(self.eest), z3.fpLEQ(z3.fpAbs(self.eest), fv(lim_e))]
+        ins = [np.array(self.w, dtype=object), fdom.fill((nw, n, 1), fdom.OPAQUE), fdom.fill((nw, n, 1), fdom.OPAQUE),
+               fi.havoc(_Aval((nw,)), "cached_overlap"), fi.havoc(_Aval((nw, n)), "gaussian"),
+               np.array(self.shift, dtype=object).reshape(()), np.array(self.eest, dtype=object).reshape(())]
+        return ins, pre
+
+    def obligations(self, fi, outs):
+        wn, shiftn, _ = outs
+        obs = []
+        for k in range(self.nw):
+            obs.append((f"weight_finite_nonneg[{k}]", fdom.nonneg_finite(wn[k])))
+            obs.append((f"dead_stays_dead[{k}]", z3.Implies(z3.fpIsZero(self.w[k]), z3.fpIsZero(wn[k]))))
+            obs.append((f"weight_at_most_100[{k}]", z3.Or(z3.fpIsNaN(wn[k]), z3.fpLEQ(wn[k], fv(100.0)))))
+        tot = wn[0]
+        for k in range(1, self.nw):
+            tot = fi.fadd(tot, wn[k])
+        alive = z3.fpGT(tot, fv(0.0))
+        if not fi.log_apps:
+            raise RuntimeError("no log found (shift update)")
+        x, v = fi.log_apps[-1]  # the shift update is the last thing propagate() does; earlier logs belong to havocked upstream code
+        clean = z3.And(*[fdom.nonneg_finite(wn[k]) for k in range(self.nw)])
+        # the argument of the log: finite and positive while a walker is alive (given finite non-negative new weights that are 0 or >= 1e-300)
+        live_ok = z3.And(*[z3.Or(z3.fpIsZero(wn[k]), z3.fpGEQ(wn[k], fv(1e-300))) for k in range(self.nw)])
+        obs.append(("new_weights_zero_or_at_least_1e-300", z3.Implies(clean, live_ok)))
+        obs.append(("shift_cut1:log_argument_finite_positive_while_alive", z3.Implies(z3.And(clean, live_ok, alive), z3.And(fdom.finite(x), z3.fpGT(x, fv(0.0))))))
+        lim_s = 590.0 / self.dt
+        obs.append(("shift_cut2:shift_finite_and_in_bound_for_every_log_value", z3.And(fdom.finite(shiftn[()]), z3.fpLEQ(z3.fpAbs(shiftn[()]), fv(lim_s))),
+                    [fdom.finite(v), z3.fpGEQ(v, fv(-746.0)), z3.fpLEQ(v, fv(710.0)), fdom.finite(self.eest), z3.fpLEQ(z3.fpAbs(self.eest), fv(500.0 / self.dt))]
+                    + list(self._shift_defs(fi))))
+        return obs
+
+    def _shift_defs(self, fi):
+        # the constraints that define the products / quotients feeding the shift (uninterpreted functions with their lemma instances)
+        return [c for c in fi.constraints]
+
+    def describe_model(self, m):
+        out = []
+        for k in range(self.nw):
+            out.append(f"w{k}={fdom.fp_to_float(m.eval(self.w[k], model_completion=True))}")
+        out.append(f"shift={fdom.fp_to_float(m.eval(self.shift, model_completion=True))}")
+        return "; ".join(out)
+
+    def _run_real(self, args):
+        import jax.numpy as jnp
+        out = self.fn(*[jnp.asarray(a) for a in args])
+        return [np.asarray(o) for o in out]
+
+    def concrete(self, args):
+        wn, shiftn, _ = self._run_real(args)
+        w0 = np.asarray(args[0], dtype=float)
+        v = {}
+        for k in range(self.nw):
+            v[f"weight_finite_nonneg[{k}]"] = bool(np.isfinite(wn[k]) and wn[k] >= 0)
+            v[f"dead_stays_dead[{k}]"] = bool(not (w0[k] == 0 and not wn[k] == 0))
+            v[f"weight_at_most_100[{k}]"] = bool(np.isnan(wn[k]) or wn[k] <= 100.0)
+        clean = bool(np.all(np.isfinite(wn)) and np.all(wn >= 0))
+        tot = float(np.sum(wn)) if clean else float("nan")
+        v["new_weights_zero_or_at_least_1e-300"] = bool(not clean or np.all((wn == 0) | (wn >= 1e-300)))
+        ok = bool(not (clean and tot > 0) or np.isfinite(shiftn))
+        v["shift_cut1:log_argument_finite_positive_while_alive"] = ok
+        v["shift_cut2:shift_finite_and_in_bound_for_every_log_value"] = ok
+        return v
+
+
+class _Aval:
+    def __init__(self, shape):
+        self.shape, self.dtype = shape, np.dtype("float64")
 
 
 def cases(tier):
-    return []
+    out = [{"type": "cpmc", "prop": p} for p in PROPS]
+    if tier == "thorough":
+        out += [{"type": "cpmc", "prop": p, "dt": 0.5, "u": 8.0} for p in ("cpmc", "cpmc_nn", "cpmc_continuous")]
+        out += [{"type": "cpmc", "prop": "cpmc", "n_walkers": 3, "dt": 0.005}]
+    return out
 
 
 def run(args, seed, known):
-    raise NotImplementedError
+    return engine_f.run_fcase(CpmcF(args), seed=seed, known=known)
 
 
 def replay(data):
-    raise NotImplementedError
+    return engine_f.replay_file_f(CpmcF(data["case_args"]), data)
